@@ -1,6 +1,8 @@
 CONSTANTS
   MaxDown = 3
   MaxUp = 2
+  MaxDownX = 2
+  MaxUpX = 2
   MaxDepth = 3
   Sizes = {0, 2}
   UpSizes = {0, 2}
